@@ -9,6 +9,7 @@
 import MpirProofs.Props.C06
 import MpirProofs.Lemmas.RadixDc
 import MpirProofs.Lemmas.RadixDcSet
+import MpirProofs.Lemmas.RadixIo
 namespace Mpir.RadixDc
 open Mpir Mpir.Radix
 
@@ -186,3 +187,112 @@ example : (mpn_set_str_dc 100 100 10 (digitsOf 10 (10 ^ 149 + 77))).map val = so
   decide +kernel
 
 end Mpir.RadixDc
+
+/-! ## Stream functions -/
+namespace Mpir.Radix
+open Mpir
+
+/-- mpz_out_str, every legal base (2..62, -2..-36, and 0 meaning 10) and every integer: the bytes written are
+    exactly `getStrSpec` — an optional `-`, then the digits of |x| in the documented alphabet, most significant
+    first, no leading zero, `"0"` for zero (the same string mpz_get_str produces) — and the return value is
+    the number of bytes written. -/
+theorem mpz_out_str_spec (base : Int) (hb : LegalOutBase (outBase base)) (x : Int) :
+    mpz_out_str base x = (getStrSpec (outBase base) x, (getStrSpec (outBase base) x).length) :=
+  mpz_out_str_spec_of bases_table_ok.1 bases_table_ok.2.1 base hb x
+
+example : mpz_out_str (-16) (-255) = ([45, 70, 70], 3) ∧ mpz_out_str 0 1234 = ([49, 50, 51, 52], 4) ∧
+    outBase 0 = 10 ∧ mpz_out_str 62 0 = ([48], 1) := by decide +kernel
+
+/-- mpz_inp_str, requested base 0 or 2..62, any byte stream `s`: it skips the leading white space, then
+    consumes exactly `inpTok` of what follows — an optional `-`, for base 0 the prefix `0x`/`0X`/`0b`/`0B`/`0`,
+    and the longest run of characters that are digits of the base — and pushes the next character back.
+    When the first character after the sign is not a digit (a decimal digit for base 0), or the stream ends
+    there, it returns 0 and stores nothing.  Otherwise the value stored is `parseSpec` of the consumed text
+    (so it agrees with mpz_set_str on that text), the return value is the number of bytes consumed including
+    the white space, and that is also the stream position afterwards. -/
+theorem mpz_inp_str_spec (rb : Nat) (hrb : rb = 0 ∨ 2 ≤ rb) (hrb62 : rb ≤ 62) (s : List Nat) (hs : ∀ c ∈ s, c < 256) :
+    match inpTok rb (s.dropWhile isSpace) with
+    | none => (mpz_inp_str (rb : Int) s).ret = 0 ∧ (mpz_inp_str (rb : Int) s).value = none
+    | some tok => mpz_inp_str (rb : Int) s =
+          ⟨(s.takeWhile isSpace).length + tok.length, parseSpec (rb : Int) tok, (s.takeWhile isSpace).length + tok.length⟩ ∧
+        (parseSpec (rb : Int) tok).isSome = true ∧ tok = (s.dropWhile isSpace).take tok.length :=
+  mpz_inp_str_spec_of digit_tab_ok.2 bases_table_ok.1 rb hrb hrb62 s hs
+
+-- non-vacuity: "  -0x1Fg" in base 0: white space 2, token "-0x1F", value -31, 7 bytes consumed, `g` pushed back;
+-- "12 3" in base 10 stops at the blank; " -" and "z" in base 10 have no digits; "0x" in base 0 is 0 (2 bytes)
+example : inpTok 0 ("-0x1Fg".toUTF8.toList.map (·.toNat)) = some ("-0x1F".toUTF8.toList.map (·.toNat)) ∧
+    mpz_inp_str 0 ("  -0x1Fg".toUTF8.toList.map (·.toNat)) == ⟨7, some (-31), 7⟩ ∧
+    mpz_inp_str 10 ("12 3".toUTF8.toList.map (·.toNat)) == ⟨2, some 12, 2⟩ ∧
+    (mpz_inp_str 10 (" -".toUTF8.toList.map (·.toNat))).ret = 0 ∧
+    inpTok 10 ("z".toUTF8.toList.map (·.toNat)) = none ∧
+    mpz_inp_str 0 ("0xg".toUTF8.toList.map (·.toNat)) == ⟨2, some 0, 2⟩ ∧
+    mpz_inp_str 0 ("089".toUTF8.toList.map (·.toNat)) == ⟨1, some 0, 1⟩ := by decide +kernel
+
+/-- Round trip through a stream: for every legal output base, every integer and every continuation `rest` of
+    the stream that does not start with a digit of that base (end of stream, white space, `/`, …), mpz_inp_str
+    in base |base| reads back exactly the bytes mpz_out_str wrote — it returns their number and leaves the
+    stream there — and stores exactly the same integer. -/
+theorem inp_out_roundtrip (base : Int) (hb : LegalOutBase base) (x : Int) (rest : List Nat)
+    (hrest : ∀ c ∈ rest, c < 256) (hnd : NoDigitAhead base.natAbs rest) :
+    mpz_inp_str (base.natAbs : Int) ((mpz_out_str base x).1 ++ rest) =
+      ⟨(mpz_out_str base x).2, some x, (mpz_out_str base x).2⟩ :=
+  inp_out_roundtrip_of digit_tab_ok.2 bases_table_ok.1 bases_table_ok.2.1 base hb x rest hrest hnd
+
+example : mpz_inp_str 36 ((mpz_out_str (-36) (-1295)).1 ++ [10, 55]) == ⟨3, some (-1295), 3⟩ ∧
+    NoDigitAhead 36 [10, 55] := by decide +kernel
+-- the hypothesis is needed: a following digit would be read as part of the number
+example : mpz_inp_str 10 ((mpz_out_str 10 12).1 ++ [55]) == ⟨3, some 127, 3⟩ := by decide +kernel
+
+/-- mpq_out_str, every legal base and every numerator/denominator pair: numerator, then `/` and the
+    denominator unless the denominator is 1, each part written like mpz_out_str; return value = bytes written. -/
+theorem mpq_out_str_spec (base : Int) (hb : LegalOutBase (outBase base)) (n d : Int) :
+    mpq_out_str base n d =
+      (if d = 1 then getStrSpec (outBase base) n else getStrSpec (outBase base) n ++ [47] ++ getStrSpec (outBase base) d,
+       (if d = 1 then getStrSpec (outBase base) n
+        else getStrSpec (outBase base) n ++ [47] ++ getStrSpec (outBase base) d).length) :=
+  mpq_out_str_spec_of bases_table_ok.1 bases_table_ok.2.1 base hb n d
+
+example : mpq_out_str 10 (-3) 4 = ([45, 51, 47, 52], 4) ∧ mpq_out_str 16 255 1 = ([102, 102], 2) := by decide +kernel
+
+/-- mpq_inp_str, requested base 0 or 2..62, any byte stream: the numerator is read exactly like mpz_inp_str
+    (white space, token, `parseSpec` value); if the next character is `/` the denominator token follows
+    immediately (no white space is skipped) and is read the same way, otherwise the denominator is 1 and that
+    character is pushed back.  The two parts are stored exactly as read — nothing is canonicalised, which is
+    why the manual requires the caller to call mpq_canonicalize.  The return value is the number of bytes
+    consumed, and 0 (nothing stored) when either part has no digit. -/
+theorem mpq_inp_str_spec (rb : Nat) (hrb : rb = 0 ∨ 2 ≤ rb) (hrb62 : rb ≤ 62) (s : List Nat) (hs : ∀ c ∈ s, c < 256) :
+    match inpTok rb (s.dropWhile isSpace) with
+    | none => (mpq_inp_str (rb : Int) s).1 = 0 ∧ (mpq_inp_str (rb : Int) s).2.1 = none
+    | some tn =>
+      ∃ vn, parseSpec (rb : Int) tn = some vn ∧
+      if s[(s.takeWhile isSpace).length + tn.length]? = some 47 then
+        match inpTok rb (s.drop ((s.takeWhile isSpace).length + tn.length + 1)) with
+        | none => (mpq_inp_str (rb : Int) s).1 = 0 ∧ (mpq_inp_str (rb : Int) s).2.1 = none
+        | some td => ∃ vd, parseSpec (rb : Int) td = some vd ∧
+            td = (s.drop ((s.takeWhile isSpace).length + tn.length + 1)).take td.length ∧
+            mpq_inp_str (rb : Int) s =
+              ((s.takeWhile isSpace).length + tn.length + 1 + td.length, some (vn, vd),
+               (s.takeWhile isSpace).length + tn.length + 1 + td.length)
+      else mpq_inp_str (rb : Int) s =
+        ((s.takeWhile isSpace).length + tn.length, some (vn, 1), (s.takeWhile isSpace).length + tn.length) :=
+  mpq_inp_str_spec_of digit_tab_ok.2 bases_table_ok.1 rb hrb hrb62 s hs
+
+-- " 6/-4x": not canonicalised (6, -4), 5 bytes; "6/ 4": no white space after `/`, returns 0; "6 /4": stops after 6
+example : mpq_inp_str 10 (" 6/-4x".toUTF8.toList.map (·.toNat)) = (5, some (6, -4), 5) ∧
+    (mpq_inp_str 10 ("6/ 4".toUTF8.toList.map (·.toNat))).1 = 0 ∧
+    mpq_inp_str 10 ("6 /4".toUTF8.toList.map (·.toNat)) = (1, some (6, 1), 1) := by decide +kernel
+
+/-- Round trip for rationals: for every legal output base, every numerator/denominator pair (canonical or
+    not) and every continuation `rest` that does not start with a digit of the base — nor with `/` when the
+    denominator is 1 and therefore not written — mpq_inp_str in base |base| consumes exactly the bytes
+    mpq_out_str wrote and stores exactly the same numerator and denominator. -/
+theorem mpq_inp_out_roundtrip (base : Int) (hb : LegalOutBase base) (n d : Int) (rest : List Nat)
+    (hrest : ∀ c ∈ rest, c < 256) (hnd : NoDigitAhead base.natAbs rest) (h47 : d = 1 → rest.head? ≠ some 47) :
+    mpq_inp_str (base.natAbs : Int) ((mpq_out_str base n d).1 ++ rest) =
+      ((mpq_out_str base n d).2, some (n, d), (mpq_out_str base n d).2) :=
+  mpq_inp_out_roundtrip_of digit_tab_ok.2 bases_table_ok.1 bases_table_ok.2.1 base hb n d rest hrest hnd h47
+
+example : mpq_inp_str 16 ((mpq_out_str (-16) (-255) 16).1 ++ [32]) = (6, some (-255, 16), 6) ∧
+    (mpq_out_str (-16) (-255) 16).1 = [45, 70, 70, 47, 49, 48] := by decide +kernel
+
+end Mpir.Radix
